@@ -700,3 +700,44 @@ PROPS['C04'] = {
                    'handle travels, and a moved-from handle yields nothing. Real transfer chains over threads/processes, typed values with probes and seeded programs compared with the models'),
     'level_note': 'Trusted: Lean kernel, harness; the link between the transports and the specification is differential (chains, world programs), the kernel\'s queue-follows-socket semantics is modelled',
 }
+
+
+def oneshot_scen(nq, nt):
+    def f(tier, seed):
+        n = nt if tier == 'thorough' else nq
+        return [{'args': ['oneshot', '--seed', str(seed + k), '--n', str(n // 4), '--tier', tier]} for k in range(4)]
+    return f
+
+
+def search_oneshot(run):
+    for k in range(3):
+        rc, cases, err = vh(['oneshot', '--seed', str(50 + k), '--n', '400'], timeout=1200)
+        bad = [c for c in cases if c.get('oracle')]
+        if bad or rc != 0:
+            return {'implementation': bad[0] if bad else {'exit': rc, 'stderr': err[-800:]},
+                    'replay_cmd': f'harness/target-default/debug/vh oneshot --seed {50 + k} --n 400'}
+    return None
+
+
+PROPS['C08'] = {
+    'modules': ['IpcModel.Props.C08'],
+    'theorems': ['C08.C08_first', 'C08.C08_orders', 'C08.C08_clean_accept', 'C08.C08_clean_drop', 'C08.C08_clean_failed_new', 'C08.C08_distinct', 'C08.C08_shape',
+                 'OneShot.conn_step', 'OneShot.names_step'],
+    'scenarios': oneshot_scen(600, 12000),
+    'search': search_oneshot,
+    'rule': ('seeded lifecycles of 4..16 operations over up to 3 servers under a private temp root: new (also failing at each step: TMPDIR too long for sun_path, forced '
+             'socket/bind/listen failure), connect to live and to retired names, a spawned client process that connects, sends 1..3 messages and exits before accept, client '
+             'sends, client exit, accept (when the first connection has sent or gone), drop of an unused server, receives and drop of the returned receiver; results, number of '
+             'entries under the temp root, listening and receiver descriptors compared with OneShot.run; the address actually bound (interposed bind) must equal the returned '
+             'name; afterwards everything is dropped and the temp root and descriptor table must be as before; finally 3 000 consecutive (thorough 20 000) and 200 simultaneous '
+             'server names must be pairwise distinct; non-trivial = an accept or a failing new; distinct = distinct lifecycle'),
+    'explanation': ('clean-up on every path, first message + rest in order for every interleaving, distinct names (given fresh directory names) proved on the model; shape facts of '
+                    'new/accept regenerated; real lifecycles incl. failing new and an exited client process compared with the model, leftovers listed'),
+    'assumptions': ['mkdtemp names are fresh (model: counter); checked on 3 000 + 200 real names', 'the kernel accept queue is FIFO; data sent to a not yet accepted connection is queued on it',
+                    'more than 10 pending connections (listen backlog) are not exercised'],
+    'level_text': ('Kernel-checked on the model: whenever accept returns or an unused server is dropped its descriptor and file-system entries are gone, a new that fails at any step '
+                   'leaves nothing, accept returns the first message of the first connection and the receiver then yields everything else the client sent in order for every '
+                   'interleaving (client before/after accept, client already exited), names are pairwise distinct; real lifecycles compared step by step, temp root and descriptor '
+                   'table checked, bound address = returned name'),
+    'level_note': 'Trusted: Lean kernel, translator (shape of new/accept), harness; file-system and mkdtemp behaviour observed, not modelled; in-process registry covered by C19 world programs only',
+}
